@@ -677,15 +677,16 @@ Proof.
   apply negb_true_iff in H1. apply negb_true_iff in H2. auto.
 Qed.
 
-Lemma tokenize_acc_plain : forall s fuel cur,
-  String.length s < fuel -> plain s = true -> tokenize_acc fuel s cur = Ok (toks s cur).
+(* plain text contains no "//": the base64 test of the tokenizer (on [prev] / [cur]) is never consulted *)
+Lemma tokenize_acc_plain : forall s fuel cur prev,
+  String.length s < fuel -> plain s = true -> tokenize_acc fuel s cur prev = Ok (toks s cur).
 Proof.
-  induction s as [|c t IH]; intros fuel cur Hf Hp; (destruct fuel as [|f]; [simpl in Hf; lia|]).
+  induction s as [|c t IH]; intros fuel cur prev Hf Hp; (destruct fuel as [|f]; [simpl in Hf; lia|]).
   - cbn [tokenize_acc toks]. destruct cur; reflexivity.
   - apply plain_cons in Hp. destruct Hp as [Hq [Hc Hp]]. simpl in Hf.
     cbn [tokenize_acc toks]. destruct (is_space c).
-    + destruct cur; rewrite IH by (assumption || lia); reflexivity.
-    + rewrite Hq, Hc. apply IH; [lia|assumption].
+    + destruct cur; cbv zeta; rewrite IH by (assumption || lia); reflexivity.
+    + rewrite Hq, Hc. cbn [andb]. apply IH; [lia|assumption].
 Qed.
 
 Theorem tokenize_plain : forall line, plain (strip line) = true -> tokenize line = Ok (toks (strip line) "").
@@ -818,7 +819,8 @@ Proof. intros w H. apply (tokenize_words [w]). simpl. rewrite H. reflexivity. Qe
 (* parse_line, factored                                                     *)
 (* ====================================================================== *)
 Definition strip_comment (fields0 : list string) : list string :=
-  if starts_with "//" (List.last fields0 "") then but_last fields0 else fields0.
+  if starts_with "//" (List.last fields0 "") && negb (in_b64 (List.last (but_last fields0) "") "")
+  then but_last fields0 else fields0.
 
 Definition parse_fields (fields : list string) : res (option instr) :=
   match fields with
@@ -1420,11 +1422,15 @@ Proof. intros. rewrite !rstrip'_cons_nonspace by reflexivity. reflexivity. Qed.
 Lemma starts_with_comment : forall r, starts_with "//" (String "/" (String "/" r)) = true.
 Proof. intros r. unfold starts_with. cbn [String.prefix]. destruct (ascii_dec "/" "/"); [apply prefix_nil|congruence]. Qed.
 
-Lemma tokenize_acc_comment_start : forall f r,
-  tokenize_acc (S f) (String "/" (String "/" r)) "" = Ok [String "/" (String "/" r)].
+Lemma in_b64_nil : forall prev, in_b64 prev "" = is_b64_kw prev.
+Proof. reflexivity. Qed.
+
+(* "//" at the start of a token is a comment unless the previous token is base64 / b64 *)
+Lemma tokenize_acc_comment_start : forall f r prev, is_b64_kw prev = false ->
+  tokenize_acc (S f) (String "/" (String "/" r)) "" prev = Ok [String "/" (String "/" r)].
 Proof.
-  intros f r. cbn [tokenize_acc]. change (is_space "/") with false. change (Ascii.eqb "/" """") with false. cbv iota.
-  rewrite starts_with_comment. reflexivity.
+  intros f r prev Hk. cbn [tokenize_acc]. change (is_space "/") with false. change (Ascii.eqb "/" """") with false. cbv iota.
+  rewrite starts_with_comment, in_b64_nil, Hk. reflexivity.
 Qed.
 
 Theorem parse_line_comment_only : forall sp c, all_space sp = true -> parse_line (sp ++ "//" ++ c) = Ok None.
@@ -1433,33 +1439,46 @@ Proof.
   rewrite strip_eq, lstrip_spaces_app by exact H.
   change (lstrip ("//" ++ c)) with (String "/" (String "/" c)). rewrite rstrip'_comment.
   change (String "/" (String "/" (rstrip' c)) =? "") with false. cbv iota.
-  rewrite tokenize_acc_comment_start. cbn [bind]. unfold strip_comment. cbn [List.last].
+  rewrite tokenize_acc_comment_start by reflexivity. cbn [bind]. unfold strip_comment. cbn [List.last but_last].
   rewrite starts_with_comment. reflexivity.
 Qed.
 
 Lemma slength_app : forall a b, String.length (a ++ b) = String.length a + String.length b.
 Proof. induction a; intros; simpl; auto. Qed.
 
-Lemma tokenize_acc_comment : forall s fuel cur r,
+Lemma last_cons_def : forall (x : string) l d, List.last (x :: l) d = List.last l x.
+Proof.
+  intros x l. revert x. induction l as [|y l IH]; intros x d; [reflexivity|].
+  change (List.last (x :: y :: l) d) with (List.last (y :: l) d). rewrite !IH. reflexivity.
+Qed.
+
+(* plain text, a blank, then "//": a comment token, PROVIDED the token before it ([prev] when the text has none) is not
+   base64 / b64 -- after these keywords "//..." is base64 data *)
+Lemma tokenize_acc_comment : forall s fuel cur prev r,
   String.length s + 1 < fuel -> plain s = true ->
-  tokenize_acc fuel (s ++ String " " (String "/" (String "/" r))) cur
+  is_b64_kw (List.last (toks (s ++ " ") cur) prev) = false ->
+  tokenize_acc fuel (s ++ String " " (String "/" (String "/" r))) cur prev
   = Ok (toks (s ++ " ") cur ++ [String "/" (String "/" r)])%list.
 Proof.
-  induction s as [|c t IH]; intros fuel cur r Hf Hp.
+  induction s as [|c t IH]; intros fuel cur prev r Hf Hp Hk.
   - destruct fuel as [|f]; [simpl in Hf; lia|].
-    cbn [String.append]. cbn [tokenize_acc]. change (is_space " ") with true. cbv iota.
+    cbn [String.append] in *. cbn [tokenize_acc]. change (is_space " ") with true. cbv iota.
     destruct f as [|f']; [simpl in Hf; lia|].
-    rewrite tokenize_acc_comment_start. destruct cur; reflexivity.
+    destruct cur as [|d cur'].
+    + apply tokenize_acc_comment_start. exact Hk.
+    + cbv zeta. rewrite tokenize_acc_comment_start by exact Hk. reflexivity.
   - destruct fuel as [|f]; [simpl in Hf; lia|]. simpl in Hf.
     apply plain_cons in Hp. destruct Hp as [Hq [Hc Hp]].
     assert (Hc' : starts_with "//" (String c t ++ String " " (String "/" (String "/" r))) = false).
     { rewrite starts_with_cc_app_space. exact Hc. }
     change (String c t ++ String " " (String "/" (String "/" r)))
       with (String c (t ++ String " " (String "/" (String "/" r)))) in *.
-    cbn [tokenize_acc]. change (String c t ++ " ") with (String c (t ++ " ")). cbn [toks].
+    cbn [tokenize_acc]. change (String c t ++ " ") with (String c (t ++ " ")) in *. cbn [toks] in *.
     destruct (is_space c).
-    + destruct cur; rewrite IH by (assumption || lia); reflexivity.
-    + rewrite Hq, Hc'. apply IH; [lia|assumption].
+    + destruct cur as [|d cur'].
+      * apply IH; [lia|assumption|exact Hk].
+      * cbv zeta. rewrite last_cons_def in Hk. rewrite IH by (assumption || lia). reflexivity.
+    + rewrite Hq, Hc'. cbn [andb]. apply IH; [lia|assumption|exact Hk].
 Qed.
 
 Lemma plain_app_l : forall a b, plain (a ++ b) = true -> plain a = true.
@@ -1525,16 +1544,25 @@ Qed.
 Lemma all_space_app : forall a b, all_space (a ++ b) = all_space a && all_space b.
 Proof. induction a as [|c t IH]; intros b; simpl; [reflexivity|]. rewrite IH. apply andb_assoc. Qed.
 
-(* a trailing comment is ignored: l contains no double quote and no // ; c is arbitrary *)
-Theorem parse_line_comment_gen : forall l c, plain l = true -> parse_line (l ++ " //" ++ c) = parse_line l.
+(* the last token of l is the keyword base64 / b64 (what follows it is base64 data, even when it starts with //) *)
+Definition last_tok_b64 (l : string) : bool := is_b64_kw (List.last (toks (strip l) "") "").
+
+(* a trailing comment is ignored: l contains no double quote and no // and does not end with the token base64 / b64;
+   c is arbitrary *)
+Theorem parse_line_comment_gen : forall l c, plain l = true -> last_tok_b64 l = false ->
+  parse_line (l ++ " //" ++ c) = parse_line l.
 Proof.
-  intros l c Hp. destruct (lstrip l) as [|c0 L0] eqn:EL.
+  intros l c Hp Hb. destruct (lstrip l) as [|c0 L0] eqn:EL.
   - apply lstrip_nil_all_space in EL. rewrite (parse_line_blank l EL).
     change (l ++ " //" ++ c) with (l ++ " " ++ "//" ++ c). rewrite <- sapp_assoc.
     apply parse_line_comment_only. rewrite all_space_app, EL. reflexivity.
   - pose proof (lstrip_head_nonspace _ _ _ EL) as Hc0.
     assert (HpL : plain (String c0 L0) = true) by (rewrite <- EL; apply plain_lstrip; exact Hp).
     set (L := String c0 L0) in *.
+    destruct (rstrip'_decomp L) as [sp [Hsp ER]].
+    assert (Et : toks (rstrip' L) "" = toks L "").
+    { rewrite ER at 2. rewrite toks_trail_spaces by exact Hsp. reflexivity. }
+    unfold last_tok_b64 in Hb. rewrite strip_eq, EL in Hb. fold L in Hb. rewrite Et in Hb.
     (* left side *)
     assert (Es : strip (l ++ " //" ++ c) = L ++ String " " (String "/" (String "/" (rstrip' c)))).
     { rewrite strip_eq, lstrip_nonblank_app by (rewrite EL; discriminate). rewrite EL.
@@ -1542,26 +1570,33 @@ Proof.
       rewrite rstrip'_app_nonblank; rewrite rstrip'_comment; [|discriminate]. rewrite sapp_assoc. reflexivity. }
     rewrite (parse_line_unfold (l ++ " //" ++ c)). unfold tokenize. rewrite Es.
     change (L ++ String " " (String "/" (String "/" (rstrip' c))) =? "") with false. cbv iota.
-    rewrite tokenize_acc_comment; [|rewrite slength_app; simpl; lia|exact HpL].
+    rewrite tokenize_acc_comment;
+      [|rewrite slength_app; simpl; lia|exact HpL|rewrite toks_trail_spaces by reflexivity; exact Hb].
     cbn [bind]. unfold strip_comment. rewrite last_last.
     rewrite starts_with_comment, but_last_snoc, toks_trail_spaces by reflexivity.
+    rewrite in_b64_nil, Hb. cbn [andb negb].
     (* right side *)
-    destruct (rstrip'_decomp L) as [sp [Hsp ER]].
     assert (HR : plain (rstrip' L) = true) by (eapply plain_app_l; rewrite <- ER; exact HpL).
     rewrite (parse_line_unfold l). rewrite tokenize_plain; rewrite strip_eq, EL; fold L; [|exact HR].
     assert (ERne : rstrip' L =? "" = false).
     { unfold L. rewrite rstrip'_cons_nonspace by exact Hc0. reflexivity. }
     rewrite ERne. cbn [bind].
-    assert (Et : toks (rstrip' L) "" = toks L "").
-    { rewrite ER at 2. rewrite toks_trail_spaces by exact Hsp. reflexivity. }
     rewrite Et. unfold strip_comment.
     assert (Hlast : starts_with "//" (List.last (toks L "") "") = false).
     { pose proof (toks_not_comment L "" eq_refl HpL) as Hall. rewrite Forall_forall in Hall.
       destruct (toks L "") as [|x xs] eqn:Etk; [reflexivity|]. apply Hall. apply last_In. discriminate. }
     rewrite Hlast. reflexivity.
 Qed.
-Theorem parse_line_comment : forall l c, plain l = true -> parse_line (l ++ " // " ++ c) = parse_line l.
-Proof. intros l c H. apply (parse_line_comment_gen l (" " ++ c) H). Qed.
+Theorem parse_line_comment : forall l c, plain l = true -> last_tok_b64 l = false ->
+  parse_line (l ++ " // " ++ c) = parse_line l.
+Proof. intros l c H Hb. apply (parse_line_comment_gen l (" " ++ c) H Hb). Qed.
+
+(* the hypothesis on the last token is needed: after base64 / b64 the text "// c" is base64 data *)
+Theorem parse_line_comment_b64_needed :
+  plain "byte base64" = true /\ last_tok_b64 "byte base64" = true /\
+  parse_line "byte base64" = Err "ParseError: incorrect byte format" /\
+  parse_line ("byte base64" ++ " //" ++ "8=") = Ok (Some (IOther "Byte" [PStr "0xffff"])).
+Proof. repeat split; vm_compute; reflexivity. Qed.
 
 (* ====================================================================== *)
 (* Assumption audit                                                         *)
@@ -1590,5 +1625,6 @@ Print Assumptions roundtrip_addr.
 Print Assumptions parse_line_lead_spaces.
 Print Assumptions parse_line_trail_spaces.
 Print Assumptions parse_line_comment.
+Print Assumptions parse_line_comment_b64_needed.
 Print Assumptions parse_line_comment_only.
 Print Assumptions parse_line_blank.
